@@ -1709,6 +1709,7 @@ pub fn run_expiry(args: &Args, rep: &mut Report) {
         let n = rng.urange(1, 10);
         // (path, expiry)
         let mut shards: Vec<(PathBuf, u64)> = Vec::new();
+        let mut first_chunks: Vec<MerkleHash> = Vec::new();
         for _ in 0..n {
             let p = GenParams {
                 n_cas: rng.urange(1, 3),
@@ -1741,7 +1742,12 @@ pub fn run_expiry(args: &Args, rep: &mut Report) {
             };
             let key = if rng.chance(1, 2) { Some(rand_hash(&mut rng)) } else { None };
             match craft_shard(dir.path(), &m, creation, expiry, key) {
-                Ok(p2) => shards.push((p2, expiry)),
+                Ok(p2) => {
+                    if key.is_none() {
+                        first_chunks.extend(m.cas.values().filter_map(|c| c.chunks.first().map(|x| x.chunk_hash)));
+                    }
+                    shards.push((p2, expiry))
+                },
                 Err(_) => continue,
             }
         }
@@ -1790,6 +1796,31 @@ pub fn run_expiry(args: &Args, rep: &mut Report) {
                 }
             }
             MDBShardFile::clean_expired_shards(dir.path(), buffer).map_err(|e| ("expiry-clean-error".to_string(), format!("{e}")))?;
+            // one case in fifteen lets time pass: a shard valid for one more second is registered by the live manager, expires,
+            // is removed by the cleaner (no grace) while the manager still has it registered
+            let mut late_chunks: Vec<MerkleHash> = Vec::new();
+            if k % 15 == 7 {
+                let now2 = std::time::SystemTime::now().duration_since(std::time::UNIX_EPOCH).unwrap().as_secs();
+                let pl = GenParams { n_cas: 2, max_chunks_per_cas: 5, n_files: 1, cas_space: KeySpace::Uniform, chunk_space: KeySpace::Uniform, file_space: KeySpace::Uniform, max_group_keys: 2, max_group_chunks: 2, dup_chunks: false, flags: None };
+                let ml = gen_model(&mut rng, &pl);
+                let late_dir = tempfile::tempdir().unwrap();
+                if let Ok(pth) = craft_shard(late_dir.path(), &ml, now2, now2 + 1, None) {
+                    late_chunks.extend(ml.cas.values().filter_map(|c| c.chunks.first().map(|x| x.chunk_hash)));
+                    rt.block_on(mgr.register_shards_by_path(&[pth.clone()])).map_err(|e| ("expiry-register-error".to_string(), format!("{e}")))?;
+                    std::thread::sleep(std::time::Duration::from_millis(2200));
+                    MDBShardFile::clean_expired_shards(late_dir.path(), 0).map_err(|e| ("expiry-clean-error".to_string(), format!("{e}")))?;
+                    if pth.exists() {
+                        return fail("expiry-kept-late", "a shard past its expiry (no grace period) was kept by the cleaner");
+                    }
+                }
+            }
+            // the manager opened before the cleaner ran still has the removed shards registered: a dedup query that lands in
+            // one of them must come back as a miss (or a hit elsewhere), not as an error
+            for h in late_chunks.iter().chain(first_chunks.iter()) {
+                if let Err(e) = rt.block_on(mgr.chunk_hash_dedup_query(&[*h])) {
+                    return fail("expiry-query-error-after-clean", format!("dedup query through a live manager fails after the cleaner removed an expired shard: {e}"));
+                }
+            }
             for (p2, expiry) in &shards {
                 let exists = p2.exists();
                 let grace_end = expiry.saturating_add(buffer);
